@@ -599,6 +599,16 @@ func exhaustive(yield func(src string)) {
 	}
 }
 
+// guard runs f under the watchdog; a timeout is only believed after a second run with a much longer
+// limit (watchdog re-run rule: a loaded machine must not turn into a crash finding).
+func guard(f func()) render.Outcome {
+	oc := render.Guard(20*time.Second, f)
+	if oc.Timeout {
+		oc = render.Guard(300*time.Second, f)
+	}
+	return oc
+}
+
 // ---------------------------------------------------------------- one case
 
 type runner struct {
@@ -617,7 +627,8 @@ func (rn *runner) one(src string, seed uint64) error {
 	var b1 *built
 	var perr error
 	reached := -1
-	oc := render.Guard(20*time.Second, func() {
+	oc := guard(func() {
+		reached = -1
 		b1, perr = parse(src)
 		if perr != nil {
 			return
@@ -704,7 +715,7 @@ func (rn *runner) one(src string, seed uint64) error {
 	var final sx.X
 	var b2 *built
 	var root bo.Box
-	oc = render.Guard(20*time.Second, func() {
+	oc = guard(func() {
 		b2, perr = parse(src)
 		if perr != nil {
 			return
